@@ -75,12 +75,12 @@ def std_dict(cfg):
 
 def make_preamble(extra=None, start=True):
     def pre(cfg):
-        lines = ["set nodeid %d" % cfg["n"], "set freq %d" % cfg.get("freq", 1000)]
-        for reg, code in cfg.get("emcy", [[0, 0x1000]]):
-            lines.append("emcy %d %d" % (reg, code))
         c = dict(cfg)
         if extra:
             c.update(extra(cfg))
+        lines = ["set nodeid %d" % c["n"], "set freq %d" % c.get("freq", 1000)]
+        for reg, code in c.get("emcy", [[0, 0x1000]]):
+            lines.append("emcy %d %d" % (reg, code))
         lines += std_dict(c)
         lines.append("init")
         if start:
